@@ -1,5 +1,6 @@
 """C04 — left-recursive grammars parse as their iterative equivalents."""
 from tools import vlib
+from tools.harness import history
 from tools.harness import gen, corr, pcommon, build, observe, views
 
 PROP = "C04"
@@ -121,6 +122,8 @@ def guarded(f, t=2.0):
 
 
 def correspond(ctx):
+    # entry points are independent of what the same grammar object was asked before (tools/harness/history.py)
+    history.run(ctx, 'C04', ["lrU", "lr2", "packrat128", "packratU", "none"], 250 if not ctx.thorough else 2500, mode_switches=True, seed_salt=4)
     corr.ensure_driver()
     rng = ctx.rng
     rounds = 14 if not ctx.thorough else 150
@@ -231,6 +234,7 @@ def _obs(f):
 
 
 def search(ctx, reasons):
+    history.run(ctx, 'C04', ["lrU", "lr2", "packrat128", "packratU", "none"], 400 if not ctx.thorough else 4000, mode_switches=True, seed_salt=104)
     import random, time
     t0 = time.time()
     for seed in range(1, 6 if not ctx.thorough else 60):
@@ -257,6 +261,8 @@ def _tuplify(x):
 
 def replay(ctx, obj):
     r = obj["replay"]
+    if r.get("kind") == "history":
+        return history.replay(r)
     if r.get("kind") == "oracle":
         env = {int(k): _tuplify(v) for k, v in r["env"].items()}
         for c in CAPS:
